@@ -238,8 +238,8 @@ class C15(core.Check):
 
     def new_name(self, r, state):
         n = len(state["files"])
-        sub = r.choice(["", "", "inc/", "inc/sub/", "layers/", "../shared/"])
-        fn = f"{sub}f{n}.map"
+        sub = r.choice(["", "", "inc/", "inc/sub/", "layers/", "../shared/", "слои/", "données/"])
+        fn = f"{sub}f{n}.map" if r.random() < 0.9 else f"{sub}карта_{n}.map"
         path = posixpath.normpath(posixpath.join(state["rootdir"], fn))
         if r.random() < state["p_abs"]:
             return path, path
@@ -249,6 +249,8 @@ class C15(core.Check):
         kw = r.choice(["INCLUDE", "INCLUDE", "include", "Include"])
         q = r.choice(['"', '"', "'", ""])
         s = f"{kw} {q}{name}{q}"
+        if r.random() < 0.15:
+            s = s.replace(" ", "\t", 1)
         c = r.random()
         if c < 0.2:
             s += "  # included part"
@@ -265,7 +267,14 @@ class C15(core.Check):
         state = {"files": {}, "rootdir": rootdir, "p_abs": k.choice([0.0, 0.1, 0.5]), "p_crlf": k.choice([0.0, 0.0, 0.3, 1.0])}
         expand = k.random() < 0.85
         balanced = (not expand) or k.random() < 0.6
-        doc = self.gen.document(w, "map", comments=k.choice([0.0, 0.2]), nl="\n")
+        # string values that look like the start / end of a C comment: the directive scan must not be confused by them
+        old_str = self.gen.STR
+        try:
+            if k.random() < 0.35:
+                self.gen.STR = ["tiles/*.tif", "*/location", "a /* b", "c */ d", "roads", "x_y"]
+            doc = self.gen.document(w, "map", comments=k.choice([0.0, 0.2]), nl="\n")
+        finally:
+            self.gen.STR = old_str
         lines = doc.rstrip("\n").split("\n")
         depth = k.choice([0, 1, 2, 3, 4, 4, 5, 5, 5, 6, 6, 6, 7])
         fanout = k.choice([1, 2, 3, 4])
@@ -285,6 +294,17 @@ class C15(core.Check):
             victim = f.choice(inc_files)
             if special == "missing":
                 del files[victim]
+                if f.random() < 0.6:
+                    # a same-named file lies beside the file that contains the directive (not under the root's
+                    # directory): it must NOT be picked up - names resolve against the root Mapfile's directory
+                    rel = posixpath.relpath(victim, rootdir)
+                    for holder, text in list(files.items()):
+                        if holder != root and posixpath.dirname(holder) != rootdir and any(
+                                INC_RE.match(l) and posixpath.basename(victim) in l for l in text.split("\n")):
+                            dec = posixpath.normpath(posixpath.join(posixpath.dirname(holder), rel))
+                            if dec not in files and dec != victim:
+                                files[dec] = 'NAME "decoy beside the including file"\n'
+                                special = "missing_with_sibling_decoy"
             elif special == "isdir":
                 del files[victim]
                 dirs.append(victim)
@@ -305,6 +325,15 @@ class C15(core.Check):
             else:
                 op, err = {"eio_open": ("open", "EIO"), "eacces_open": ("open", "EACCES"), "eio_read": ("read", "EIO")}[special]
                 faults.append({"op": op, "cls": "simfs", "k": f.randint(1, max(1, len(inc_files))), "err": err, "path": ".map"})
+        if inc_files and k.random() < 0.1:
+            # an include file that is empty / holds only a comment: substituting it leaves nothing
+            extra = posixpath.join(rootdir, f"empty{len(files)}.map")
+            files[extra] = k.choice(["", "# nothing here\n", "\n\n"])
+            rl = files[root].split("\n")
+            at = next((i for i, l in enumerate(rl) if INC_RE.match(l)), None)
+            if at is not None:
+                rl.insert(at, f'INCLUDE "{posixpath.basename(extra)}"')
+                files[root] = "\n".join(rl)
         steps = []
         nsteps = k.choice([1, 1, 1, 2, 3]) if not (special or faults) else k.choice([1, 2, 2, 3])
         originals = dict(state["files"])
@@ -312,7 +341,7 @@ class C15(core.Check):
             mode = r.choice(["open", "load_named", "load_relname", "loads", "load_stringio", "parser_file", "parser_file", "parser_file", "parser_text", "parser_text"])
             cwd = rootdir if mode in ("loads", "load_stringio", "parser_text") else r.choice(["/simfs/elsewhere", "/simfs", "/simfs/proj/inc", "/simfs/other/deep"])
             steps.append({"mode": mode, "cwd": cwd})
-        if special in ("missing", "isdir") and nsteps >= 2 and k.random() < 0.7:
+        if special in ("missing", "missing_with_sibling_decoy", "isdir") and nsteps >= 2 and k.random() < 0.7:
             # the operator repairs the tree between two calls: the retry must succeed
             steps[1]["repair"] = {victim: originals[victim]}
         if k.random() < 0.3:
@@ -457,7 +486,7 @@ class C15(core.Check):
             trace.append([step["mode"], kind, got[0], got[1][1] if got[0] == "exc" else core.digest(got[1]), [e[1:4] for e in hist]])
             for f in fs.fired_faults[fired_before:]:
                 bump(f"fault.{f['op']}_{f['err']}")
-            if case.get("special") in ("missing", "isdir", "cycle", "selfcycle", "shared_first") and si == 0:
+            if case.get("special") in ("missing", "missing_with_sibling_decoy", "isdir", "cycle", "selfcycle", "shared_first") and si == 0:
                 bump("fault.tree_" + case["special"])
             if writes:
                 violation = viol("opened_for_writing", step, writes[:3])
